@@ -168,9 +168,9 @@ func init() {
 			return "u"
 		}
 
-		if replay == "cumulative" {
-			// Observation (not part of the default run): two delegations to one validator in ONE transaction,
-			// each below the cap against the state the transaction starts from, together above it.
+		{
+			// directed (F23): two delegations to one validator in ONE transaction, each below the cap against the
+			// state the transaction starts from, together above it.
 			c.begin()
 			ctx := c.dctx()
 			tv, _ := c.app.StakingKeeper.GetValidator(ctx, valOf(3))
@@ -189,7 +189,6 @@ func init() {
 				out.Emit(fmt.Sprintf("chk c19.effpow.cumulative tag=ante.deliver.power.cumulative %s %s", tv2.Tokens.BigInt(), c.stakeTotal(ctx2)), "true", "tx.pow.cumulative", true)
 			} else {
 				out.Hist["tx.pow.cumulative.refused"]++
-				out.Extra["cumulative_log"] = res.Log
 			}
 			c.end()
 		}
@@ -327,8 +326,31 @@ func init() {
 					m = stakingtypes.NewMsgDelegate(c.addrs[signer], valOf(target), sdk.NewCoin("rowan", sdk.NewIntFromBigInt(a)))
 				}
 				ns := []*node{wrapDepth(c.addrs[signer], leaf(m, bodyOfStaking(m, valID)), depth)}
-				res := c.deliver(signer, msgsOf(ns), sdk.Coins{})
 				shape := shapeOf(ns)
+				if !redel && rng.Chance(1, 3) {
+					// the same amount split over two or three delegations of one transaction, one of them wrapped
+					parts := 2 + rng.Intn(2)
+					ns = nil
+					rest := new(big.Int).Set(a)
+					for i := 0; i < parts; i++ {
+						x := new(big.Int).Quo(a, big.NewInt(int64(parts)))
+						if i == parts-1 {
+							x = rest
+						}
+						rest = new(big.Int).Sub(rest, x)
+						if x.Sign() <= 0 {
+							x = big.NewInt(1)
+						}
+						mi := stakingtypes.NewMsgDelegate(c.addrs[signer], valOf(target), sdk.NewCoin("rowan", sdk.NewIntFromBigInt(x)))
+						d := 0
+						if i == 0 {
+							d = depth
+						}
+						ns = append(ns, wrapDepth(c.addrs[signer], leaf(mi, bodyOfStaking(mi, valID)), d))
+					}
+					shape = "cumulative"
+				}
+				res := c.deliver(signer, msgsOf(ns), sdk.Coins{})
 				if res.Code == 0 {
 					executed++
 					ctx2 := c.dctx()
